@@ -177,6 +177,20 @@ def run_session(exe, session, env=None, wrapper=None, go_timeout=120, slow=1.0):
             res["boards"].append((st[1], got))
             if not ok:
                 dead = True
+        elif kind == "eval":
+            # staticeval on the reader thread (possibly while a search runs): the line "Score: cp N" / "Score: mate N"
+            res["cmds"].append("staticeval")
+            pr.send("staticeval")
+            lines, ok, eof = pr.read_until(lambda l: l.startswith("Score:"), 60 * slow)
+            res.setdefault("evals", []).append({"fen": st[1], "truth_win": bool(st[2]), "strong_to_move": bool(st[3]),
+                                                "line": lines[-1] if ok else None})
+            if not ok:
+                dead = True
+        elif kind == "waitbest":
+            lines, ok, eof = pr.read_until(lambda l: l.startswith("bestmove"), go_timeout * slow)
+            if not ok:
+                res["problems"].append("no-bestmove")
+                dead = True
         elif kind == "perft":
             res["cmds"].append("perft %d" % st[1])
             pr.send("perft %d" % st[1])
